@@ -83,6 +83,11 @@ def extra_configs():
     C["wide-root"] = {"root": "ra", "lookups": ["rb"], "defs": [D("ra", "ra.T%02d" % i, (1, 0), [("rb.X", (1, 0))] if i % 10 == 0 else []) for i in range(70)] + [D("rb", "rb.X", (1, 0)), D("rb", "rb.Unref", (1, 0))]}
     chain = [D("ra", "ra.C%03d" % i, (1, 0), text=("# mentions rb.Unref.1.0 and ra.Nowhere.1.0 in a comment\n" + ("C%03d.1.0 next\n" % (i + 1) if i < 119 else "") + "uint8 v\n@sealed\n")) for i in range(120)]
     C["deep-chain-with-comment"] = {"root": "ra", "lookups": ["rb"], "defs": chain + [D("rb", "rb.Unref", (1, 0))], "outside_override": [120], "rn_only": True}
+    # a self-referential / cyclic target next to a same-named, same-version TWIN in another directory / file: the reference names the
+    # referrer itself (an error), never the twin
+    C["self-reference-with-twin-in-lookup-root"] = {"root": "p/ra", "lookups": ["q/ra"], "defs": [D("p/ra", "ra.Node", (1, 0), [("ra.Node", (1, 0))]), D("q/ra", "ra.Node", (1, 0)), D("q/ra", "ra.Other", (1, 0))], "outside_override": [1, 2]}
+    C["cycle-with-twin-in-lookup-root"] = {"root": "p/ra", "lookups": ["q/ra"], "defs": [D("p/ra", "ra.A", (1, 0), [("ra.B", (1, 0))]), D("p/ra", "ra.B", (1, 0), [("ra.A", (1, 0))]), D("q/ra", "ra.A", (1, 0)), D("q/ra", "ra.Other", (1, 0))], "outside_override": [2, 3]}
+    C["self-reference-with-legacy-twin"] = {"root": "ra", "lookups": [], "defs": [D("ra", "ra.Node", (1, 0), [("ra.Node", (1, 0))]), D("ra", "ra.Node", (1, 0), legacy=True), D("ra", "ra.Other", (1, 0))], "outside_override": [1, 2], "rf_only": [0]}
     C["target-fails"] = {"root": "ra", "lookups": ["rb"], "defs": [D("ra", "ra.A", (1, 0), text="uint8 a\n@assert false\n@sealed\n"), D("rb", "rb.X", (1, 0)), D("rb", "rb.Y", (1, 0))]}
     return C
 
@@ -159,7 +164,7 @@ def plan(tier):
     shards.append({"kind": "twin-roots"})
     shards += [{"kind": "graphs", "part": p, "parts": 16} for p in range(16)]
     shards += [{"kind": "history", "part": p, "parts": 16} for p in range(16)]
-    shards += H.plan_shards(['faults', 'minor-versions', 'wide-revisions'])
+    shards += H.plan_shards(['faults', 'minor-versions', 'wide-revisions', 'shared-arguments'])
     return shards
 
 
